@@ -314,6 +314,9 @@ static void h_op(void)
   }
   if (!strcmp(op, "fit"))    { alarm(H_FIT_TIMEOUT); do_fit(); alarm(0); return; }   /* a fit that never returns dies with SIGALRM -> "fault signal:14" */
   if (!strcmp(op, "sample")) { do_sample(); return; }
+  if (!strcmp(op, "sxpcdf")) {       /* esl_sxp_cdf() as sxp_complete_binned_func() calls it, incl. the parameters for which IncompleteGamma fails */
+    h_out("ok %s", h_dbits(esl_sxp_cdf(h_argbits("x"), h_argbits("mu"), h_argbits("lambda"), h_argbits("tau")))); return;
+  }
   if (!strcmp(op, "gevobj")) {       /* gev_func() and gev_gradient() at a given point p = (mu, log lambda, alpha) on the current data set */
     struct gev_data data; double *p = NULL, dp[3] = { 0., 0., 0. }, f; int np = parse_bits_list(h_arg("p"), &p);
     if (np != 3) { free(p); h_out("bad-op"); return; }
